@@ -154,10 +154,20 @@ func TestC13Snapshot(t *testing.T) {
 		if live := states[nOpen].Live(); len(live) > 0 {
 			chunks = live[len(live)-1]>>14 + 1
 		}
-		// cut[b] = number of tail transactions applied before block b was read
+		// cut[b] = number of tail transactions applied before block b was read. A block that is
+		// not in the state section (b >= chunks: empty when the state was written) is rebuilt from
+		// the log alone, every logged commit for it applies from scratch: its base is the state
+		// before all tail transactions (cut 0) - provided the block was empty then as well;
+		// otherwise (all its rows deleted during recorder-open) the block is not judged.
+		unjudged := map[uint32]bool{}
 		cutOf := func(b uint32) int {
 			if b >= chunks {
-				return nOpen
+				for off := range states[0].Rows {
+					if off>>14 == b {
+						unjudged[b] = true
+					}
+				}
+				return 0
 			}
 			n := 0
 			for _, tl := range tails {
@@ -209,6 +219,9 @@ func TestC13Snapshot(t *testing.T) {
 						if lg.b == b && lg.j > J {
 							J = lg.j
 						}
+					}
+					if unjudged[b] {
+						continue
 					}
 					if !blockEqual(states[J], got, b) {
 						ok = false
